@@ -64,12 +64,16 @@ Definition strip_media (m : media) : media := strip_loop m [].
 (* for _, m := range desc.MediaDescriptions { … m.Attributes = attrs } *)
 Definition strip (d : description) : description := map strip_media d.
 
-(* the whole function on a text: None = desc.Unmarshal failed -> the input string is returned *)
+(* the whole function on a text.  The input string is returned in two places:
+     err := desc.Unmarshal([]byte(str)); if err != nil { return str }          parsed = None
+     bts, err := desc.Marshal();         if err != nil { return str }          marshal_ok = false
+   [marshal_ok] is the outcome of the library call on the stripped description (reported by the driver
+   for every case; pion/sdp v3.0.5 never returns an error from Marshal). *)
 Inductive strip_result := Unchanged | Stripped (d : description).
-Definition strip_text (parsed : option description) : strip_result :=
+Definition strip_text (marshal_ok : bool) (parsed : option description) : strip_result :=
   match parsed with
   | None => Unchanged
-  | Some d => Stripped (strip d)
+  | Some d => if marshal_ok then Stripped (strip d) else Unchanged
   end.
 
 (* specification vocabulary (booleans, used by the theorems and by the runner) *)
